@@ -416,6 +416,17 @@ pub fn run(ctx: &Ctx) -> Report {
     let fixed: Vec<(&str, &str)> = vec![("", "empty"), ("a", "ascii"), ("seed with spaces and \"quotes\"", "ascii"), ("-s", "dash"), ("--seed", "dash"), ("-", "dash"), ("--", "dash"), ("@file", "ascii"), ("~", "ascii"), ("$HOME", "ascii"), ("0", "ascii"), ("null", "ascii"),
         ("clé secrète 🔑", "unicode"), ("日本語のシード", "unicode"), ("\u{feff}bom", "unicode"), ("e\u{301}", "unicode"), ("é", "unicode"),
         (&long_a, "long"), (&long_u, "long"), (" ", "ascii"), ("\n", "ascii"), ("TESTSEED ", "ascii")];
+    // seeds that look like something else than a pass phrase: encoded key material of the usual lengths (hex of
+    // 16/32/64 bytes in both cases, with and without 0x, base64 of 32 bytes, a PEM body), numbers, a path
+    let enc: Vec<String> = {
+        let b: Vec<u8> = (0..64u8).map(|i| i.wrapping_mul(37).wrapping_add(11)).collect();
+        let hexs = |n: usize| hx(&b[..n]);
+        vec![hexs(16), hexs(32), hexs(32).to_uppercase(), hexs(64), format!("0x{}", hexs(32)), hexs(32)[..63].to_string(), format!("{}0", hexs(32)),
+             "MC4CAQAwBQYDK2VuBCIEIAABAgMEBQYHCAkKCwwNDg8QERITFBUWFxgZGhscHR4f".to_string(), "AAECAwQFBgcICQoLDA0ODxAREhMUFRYXGBkaGxwdHh8=".to_string(),
+             "00000000000000000000000000000000".to_string(), "0".repeat(64), "f".repeat(64), "18446744073709551616".to_string(), "/dev/stdin".to_string(), "file:seed.txt".to_string()]
+    };
+    let mut fixed = fixed;
+    for e in &enc { fixed.push((e.as_str(), "encoded-looking")); }
     let mut parents: Vec<(Vec<u8>, &'static str)> = vec![];
     for (s, class) in &fixed {
         if let Some(p) = env.check_keygen(s, class) {
